@@ -422,10 +422,18 @@ func LibKey(k ref.Key) lorawan.AES128Key { return lorawan.AES128Key(k) }
 // PHYPayload variable decodes wire, the result is kept by value (as a receive queue does with `append(q, phy)`),
 // and the same variable then decodes a second frame of the same message type (wire with every byte but the ones
 // that select the layout - MHDR, FCtrl of data frames, the type octet of rejoin-requests - complemented; its outcome
-// does not matter). The kept value is returned: it has to be the frame that wire stands for.
+// does not matter). The kept value is returned: it has to be the frame that wire stands for. In both modes the buffer
+// the frame was decoded from is overwritten before Receive returns.
 func Receive(wire []byte, loop bool) (lorawan.PHYPayload, error) {
 	var v lorawan.PHYPayload
-	if err := v.UnmarshalBinary(append([]byte{}, wire...)); err != nil || !loop {
+	buf := append([]byte{}, wire...)
+	err := v.UnmarshalBinary(buf)
+	// the receive buffer belongs to the caller, who reads the next frame into it: whatever is done with the decoded
+	// frame afterwards (decrypt, validate, re-encode) must not depend on it any more
+	for i := range buf {
+		buf[i] = ^buf[i]
+	}
+	if err != nil || !loop {
 		return v, err
 	}
 	kept := v
